@@ -74,12 +74,20 @@ def rule_registry(ctx, rep):
             r.finding("%s|registered-%d-times" % (m.group(1), c), where, "registered more than once")
     # semantic(): every table entry is called on the library (the loop calls the fn pointer) and Err results are accumulated
     sb = sem[0]
-    ind = [c for c in sb.calls() if c.callee is None]
-    ext = [c for c in sb.calls() if (c.callee or "").endswith("Extend<T>>::extend") or (c.callee or "").endswith("Vec::append")]
-    if len(ind) == 1 and ext:
-        r.ok("semantic|calls every table entry and accumulates Err", "%s:%d" % (sb.f["file"], sb.f["line"]))
+    from vlib import units
+    w_sem = "%s:%d" % (sb.f["file"], sb.f["line"])
+    ind = [(bd, c) for bd, c, site in units.calls_in_unit(ctx, sb) if c.callee is None and not (c.u or "")]
+    if len(ind) != 1:
+        r.finding("semantic|loop-shape", w_sem, "expected one indirect call (the table entry) in semantic and its closures, found %d" % len(ind))
     else:
-        r.finding("semantic|loop-shape", "%s:%d" % (sb.f["file"], sb.f["line"]), "expected one indirect call per table entry whose Err is appended to the accumulator")
+        bd, c = ind[0]
+        every, how = units.visits_every_item(ctx, sb, bd, c)
+        if not every:
+            r.finding("semantic|entry-skipped", w_sem, "the call of the table entry is not executed for every entry: %s" % how)
+        elif not units.result_reaches_return(ctx, sb, bd, c):
+            r.finding("semantic|result-dropped", w_sem, "what the table entry returns cannot reach semantic's own result: a rule's diagnostics are thrown away")
+        else:
+            r.ok("semantic|calls every table entry and accumulates Err", w_sem, how)
     # analyze
     ab = ana[0]
     where = "%s:%d" % (ab.f["file"], ab.f["line"])
